@@ -1,8 +1,8 @@
 (* C10 - Rearranging dimensions preserves every element's label coordinates.
    Only statements, each closed by [exact] of a lemma proved in Proofs/C10_proofs.v. *)
 From DA Require Import Prelude NDArray Array.
-From DA.Model Require Import Value Reshape.
-From DA.Proofs Require Import C10_proofs.
+From DA.Model Require Import Value Reshape Indexing Align.
+From DA.Proofs Require Import C10_proofs C05_proofs C10_broadcast.
 Open Scope nat_scope.
 
 (* transpose: the result's axes are the requested permutation of the input's axis records
@@ -106,6 +106,44 @@ Theorem C10_squeeze_newaxis : forall name pos a r,
   wf_shape a -> newaxis name None pos a = Ok r -> squeeze (Some (ByName name)) r = Ok a.
 Proof. exact squeeze_newaxis. Qed.
 Print Assumptions C10_squeeze_newaxis.
+
+(* broadcast(target axes): the result has exactly the requested dimensions in the requested order, is well-formed,
+   keeps the metadata, carries every input axis of length <> 1 unchanged (same record: labels, order, metadata), and
+   its element at coordinate c' is the input element at the NAME-wise corresponding coordinate [name_coord]: along
+   each input dimension d, c' at the position d has in the result - 0 along input dimensions of length 1, i.e.
+   replicated along newly introduced and repeated dimensions.  Unbounded in rank, sizes and target list. *)
+Theorem C10_broadcast : forall newaxes a r,
+  WF a -> ~ In EmptyString (map aname newaxes) -> broadcast newaxes a = Ok r ->
+  WF r /\ dims r = map aname newaxes /\ attrs r = attrs a /\
+  (forall ax, In ax (axes a) -> alen ax <> 1 -> In ax (axes r)) /\
+  forall c', inb (sh (vals r)) c' = true ->
+    inb (sh (vals a)) (name_coord a r c') = true /\ get (vals r) c' = get (vals a) (name_coord a r c').
+Proof. exact broadcast_full. Qed.
+Print Assumptions C10_broadcast.
+(* broadcast_arrays: every output is such a rearrangement of the input at the same position, all outputs are
+   well-formed and have one common list of dimensions *)
+Theorem C10_broadcast_arrays : forall arrays l,
+  Forall WF arrays -> broadcast_arrays arrays = Ok l ->
+  Forall WF l /\ (exists ds, Forall (fun r => dims r = ds) l) /\
+  Forall2 (fun a r => attrs r = attrs a /\
+                      (forall ax, In ax (axes a) -> alen ax <> 1 -> In ax (axes r)) /\
+                      forall c', inb (sh (vals r)) c' = true ->
+                        inb (sh (vals a)) (name_coord a r c') = true /\ get (vals r) c' = get (vals a) (name_coord a r c'))
+          arrays l.
+Proof. exact broadcast_arrays_full. Qed.
+Print Assumptions C10_broadcast_arrays.
+Definition ex_a_b : darr :=
+  Arr [Ax "x" KI [L_ 1; L_ 2] [] []; Ax "y" KO [LStr "a"; LStr "b"; LStr "c"] [] []]
+      [2; 3] KF [N_ 1; N_ 2; N_ 3; N_ 4; N_ 5; N_ 6] [("units", MStr "K")].
+Example C10_broadcast_nonvacuous :
+  WF ex_a_b /\
+  let tgt := [Ax "y" KO [LStr "a"; LStr "b"; LStr "c"] [] []; Ax "w" KI [L_ 7; L_ 8] [] []; Ax "x" KI [L_ 1; L_ 2] [] []] in
+  exists r, broadcast tgt ex_a_b = Ok r /\ dims r = ["y"; "w"; "x"]%string /\ sh (vals r) = [3; 2; 2] /\
+            get (vals r) [2; 1; 1] = N_ 6 /\ name_coord ex_a_b r [2; 1; 1] = [1; 2].
+Proof.
+  split; [apply wfb_WF; vm_compute; reflexivity|].
+  eexists. split; [vm_compute; reflexivity|]. vm_compute. repeat split.
+Qed.
 
 (* non-vacuity: a concrete 2x3 array meets the hypotheses and the operations succeed on it *)
 Definition ex_a : darr :=
